@@ -398,6 +398,11 @@ def run(rep):
     for rule in ("da-stdp", "da-stdpd", "da-mstdp", "da-mstdpd", "da-kernel", "da-kerneld"):
         for sign in list(SIGNS) + (list(SIGNS_ZERO) if rule in ("da-stdp", "da-stdpd", "da-mstdp", "da-mstdpd") else []):
             jobs.append((shard, (rule + "+ov", "dense", (1, 1), T1 - 1, 1.0, sign, "const")))
+    # per-sample reward tensors on cells whose weight is not 2-D (batched step = sum of the per-sample steps; shared with C11)
+    import checks.c11_batch as c11
+    for rule in ("da-mstdp", "da-mstdpd"):
+        for conn in ("direct", "conv"):
+            jobs.append((c11.da_batch_shard, (rule, conn)))
     # kernel keyword arguments passed as tensors
     for rule in ("da-kernel-t", "da-kerneld-t"):
         for sign in ("hebbian", "anti"):
